@@ -8,6 +8,22 @@ HOOK_COMMITS = subprocess.check_output(
 
 # id -> (technique, level text, level note, design ref)
 CHECKS = {
+ "C02": ("bounded-exhaustive program enumeration; reference least-fixed-point solver compared set-for-set with the implementation, plus per-execution live-range checking with an activation monitor",
+         "Every control-flow and sequence kernel program (same families as C01/C03): (b) the harness's own worklist solver computes the least solution of the documented liveness equations over the implementation's edges, function table and known-ecall numbers, and live_in/live_out of every node, arguments()/returns() and the set of dead-assignment warnings must equal it exactly; (a) every execution from 8/32 initial states is cut into activations and every register read must find the register live at every node on the path from its defining write (calls, ecalls, returns and function entries reading/clobbering what the convention says).",
+         "Trusted: the transcription of the equations from liveness.rs comments / docs/argument-guess.md, the interpreter and the activation model. (b) is relative to the implementation's edge relation and value facts (checked by C03, C01).",
+         "DESIGN.md 3 C02"),
+ "C03": ("bounded-exhaustive program enumeration x exhaustive hash-order schedule exploration (deviation-bounded, stateless re-execution through the rva_verif choice points); structural graph invariants by node identity plus per-execution edge conformance",
+         "Every control-flow kernel program is analysed under every hash-iteration schedule of the order-sensitive traversals (whole schedule tree when < 64/1024 schedules, else all schedules with <= 1/2 non-canonical choices); every resulting graph is checked by node identity (nexts/prevs inverse, every edge a fall-through / jump to the written label / merged return, exit ecalls cut) and every control transfer of every explored execution (8/32 initial states, 256-step horizon) must be an edge, with no executed node reported unreachable.",
+         "Trusted: interpreter; the hook model of hash order (per-set-instance memoized order; complete re-shuffles on table growth not modelled). Programs in which an explored execution falls off the end of the text are outside the quantifier.",
+         "DESIGN.md 3 C03"),
+ "C11": ("bounded-exhaustive enumeration of call-graph/label arrangements x hash-order schedules; function table compared with an oracle computed from the AST and from identity-reachability over the final edges",
+         "main calling f1, f2 (f3 from unreachable code) followed by every sequence of length <= 4/6 over an 11-symbol alphabet (function labels, local label, instruction, ret, jumps/branches to local and function labels, nested call) plus fixed programs for utvec handler installation and multi-label entries, each under every schedule within the deviation bound: entry nodes = call targets, Function::nodes() = identity-reachable set, owner lists consistent, one exit which is a return, other returns merged into it, sharing reported exactly when it exists.",
+         "Trusted: the AST-level notion of call target; reachability uses the implementation's edges (C03).",
+         "DESIGN.md 3 C11"),
+ "C12": ("explicit-state model checking (stateright BFS) of the pass pipeline as a transition system whose transitions call the real passes; state = canonical dump",
+         "Per program, stateright explores breadth-first the transition system {AvailableValuePass::run, EcallTerminationPass::run, LivenessPass::run} over the finished graph to depth 3/5 with the invariant 'every reachable state (canonical dump of edges, six fact maps, function annotations, diagnostics) equals the initial state'; plus: a second analysis of the same program yields the same dump, and every pass run of the standard pipeline needs at most 4*nodes+32 sweeps (hook H6 aborts beyond).",
+         "Trusted: the canonical dump covers everything the passes read (states with equal dumps are merged). Canonical hash-order schedule only.",
+         "DESIGN.md 3 C12"),
  "C01": ("bounded-exhaustive program enumeration; each program analysed by the real pipeline and executed by a reference RV32IM interpreter with an activation monitor from every initial state; every claim evaluated on every step",
          "Explicit-state exploration of (program, initial state, step): every program of the kernel family (single-transfer: each of ~1650 instructions after every state-setting prefix of length <= 1 quick / <= 2 thorough; all sequences over a 25-symbol alphabet up to length 3/4; all control-flow sequences over 12/14 symbols up to length 4/6; 10 loop/diamond/irreducible/recursion/multi-return skeletons; each as main program and as called function) is analysed by the real Manager::gen_full_cfg and executed by the harness's interpreter from 8/32 initial states to exit or a 256-step horizon; at every arrival/departure every Constant / Address / entry-value+k claim on registers and stack slots is compared with the machine. The model (interpreter) trace is bound 1:1 to the implementation's CFG nodes.",
          "Trusted: the reference interpreter (two cross-checked ALUs) and the activation monitor that stops checking where an execution leaves the property's supported subset. Programs longer than the bounds, immediates outside the alphabets and the un-named claim kinds (memory-at-register, CSR) are not covered.",
